@@ -271,7 +271,10 @@ def _run_once(spec, fn_node, mode, sz):
                 pv.prove(f"{spec.name()}#raises:never({exc})@L{node.lineno}", f.pc, False, detail=f"raise {exc} reachable")
             else:
                 pv.prove(f"{spec.name()}#raises:allowed({exc})@L{node.lineno}", f.pc, spec.may_raise(cx, env, exc))
-    if nret == 0 and not any(o.status == "unsupported" for o in pv.obligations):
+    if nret == 0 and getattr(spec, "only_raises", lambda: False)() and any(kind != "return" for _, kind, _ in ex.results):
+        # a case whose contract is "this request is rejected": reaching the raise is the reachability guard
+        pv.obligations.append(Obligation(spec.name() + "#reach:raise", "discharged", "-", 0.0, mode=mode))
+    elif nret == 0 and not any(o.status == "unsupported" for o in pv.obligations):
         pv.obligations.append(Obligation(spec.name() + "#reach:return", "refuted", "-", 0.0, detail="no return path reachable", mode=mode))
     return pv, ex, sym
 
